@@ -58,9 +58,9 @@ func configs() []Cfg {
 // target occurs; the last letter (an arbitrary sequence-number jump) only on reliable transports
 var seqAlphabet = []Letter{
 	{Size: "1", Marker: false, TS: "+3000", Target: 0},
-	{Size: "100", Marker: true, TS: "-3000", Target: 1},
+	{Size: "max", Marker: true, TS: "-3000", Target: 1},
 	{Size: "max-1", Marker: false, TS: "absmax", Target: 0},
-	{Size: "max", Marker: true, TS: "+3000", Target: 1},
+	{Size: "100", Marker: true, TS: "+3000", Target: 1},
 	{Size: "max", Marker: false, TS: "abs0", Target: 0},
 	{Size: "1", Marker: true, TS: "-3000", Target: 1},
 	{Size: "100", Marker: false, TS: "+3000", Target: 0, Jump: true},
@@ -82,8 +82,8 @@ func allReliable(c Cfg) bool {
 
 // seqCase builds the batch case of the sequences with numbers [from, to) in the enumeration of all words of
 // length 1..maxLen over the first k letters (shorter words first, then lexicographic).
-func seqWord(n, k, maxLen int) []int {
-	for l := 1; l <= maxLen; l++ {
+func seqWord(n, k, minLen, maxLen int) []int {
+	for l := max(minLen, 1); l <= maxLen; l++ {
 		cnt := 1
 		for i := 0; i < l; i++ {
 			cnt *= k
@@ -101,21 +101,23 @@ func seqWord(n, k, maxLen int) []int {
 	return nil
 }
 
-func seqCount(k, maxLen int) int {
+func seqCount(k, minLen, maxLen int) int {
 	t, c := 0, 1
 	for l := 1; l <= maxLen; l++ {
 		c *= k
-		t += c
+		if l >= minLen {
+			t += c
+		}
 	}
 	return t
 }
 
 // Gen is the compact description of a case from which the worker rebuilds the step list.
 type Gen struct {
-	K, MaxLen, From, To, Batch int      `json:",omitempty"`
-	Jump                       bool     `json:",omitempty"` // letter K-1 is the jump letter
-	Scripts                    []string `json:",omitempty"`
-	Pos                        [][]int  `json:",omitempty"`
+	K, MinLen, MaxLen, From, To, Batch int      `json:",omitempty"`
+	Jump                               bool     `json:",omitempty"` // letter K-1 is the jump letter
+	Scripts                            []string `json:",omitempty"`
+	Pos                                [][]int  `json:",omitempty"`
 }
 
 func expand(cs Case) Case {
@@ -125,7 +127,7 @@ func expand(cs Case) Case {
 	g := cs.Gen
 	var out Case
 	if cs.Kind == "seq" {
-		out = seqCase(cs.Cfg, g.K, g.MaxLen, g.From, g.To, g.Batch, g.Jump)
+		out = seqCase(cs.Cfg, g.K, g.MinLen, g.MaxLen, g.From, g.To, g.Batch, g.Jump)
 	} else {
 		var rs []placed
 		for i := range g.Scripts {
@@ -137,7 +139,7 @@ func expand(cs Case) Case {
 	return out
 }
 
-func seqCase(cfg Cfg, k, maxLen, from, to, batchNo int, jump bool) Case {
+func seqCase(cfg Cfg, k, minLen, maxLen, from, to, batchNo int, jump bool) Case {
 	cs := Case{Cfg: cfg, Kind: "seq"}
 	cs.Cfg.Rd2 = ""
 	starts := []uint16{0, 65534, 65531}
@@ -148,7 +150,7 @@ func seqCase(cfg Cfg, k, maxLen, from, to, batchNo int, jump bool) Case {
 			// reliable transports: sequence numbers may jump arbitrarily, so every word starts at 0 or 65534
 			cs.Steps = append(cs.Steps, Step{Op: "s", V: int(starts[n%2])})
 		}
-		for _, li := range seqWord(n, k, maxLen) {
+		for _, li := range seqWord(n, k, minLen, maxLen) {
 			l := seqAlphabet[li]
 			if jump && li == k-1 {
 				l = seqAlphabet[len(seqAlphabet)-1]
@@ -367,8 +369,8 @@ func main() {
 			runtime.GOMAXPROCS(4)
 			cfg := Cfg{Dir: dirStream, Rd: tTCP, Shape: "2m"}
 			t0 := time.Now()
-			for b := 0; b < 10; b++ {
-				runCase(seqCase(cfg, 7, 4, b*120, b*120+120, b, false))
+			for b := 0; b < 10 && os.Getenv("C01_MEMPROF") == ""; b++ {
+				runCase(seqCase(cfg, 7, 1, 4, b*120, b*120+120, b, false))
 			}
 			fmt.Println("10 batches of 120 words:", time.Since(t0), cfg)
 			t0 = time.Now()
@@ -378,6 +380,11 @@ func main() {
 			}
 			fmt.Println(len(pp), "placement cases:", time.Since(t0))
 			pprof.StopCPUProfile()
+			if mf := os.Getenv("C01_MEMPROF"); mf != "" {
+				fh, _ := os.Create(mf)
+				pprof.Lookup("allocs").WriteTo(fh, 0) //nolint:errcheck
+				fh.Close()
+			}
 			os.Exit(0)
 		}
 		p1 := readerPlacements(4)
@@ -390,7 +397,7 @@ func main() {
 				k = 7
 			}
 			t0 := time.Now()
-			r := runCase(seqCase(cfg, k, 2, 0, 40, ci, false))
+			r := runCase(seqCase(cfg, k, 1, 2, 0, 40, ci, false))
 			fmt.Printf("%-44s seq: %6.1fms written=%d received=%d fails=%d err=%q tap=%d %s\n", cfg, float64(time.Since(t0).Microseconds())/1000, r.Written, r.Received, len(r.Fails), r.HarnessErr, r.TapFrames, r.TapSkipped)
 			for _, f := range r.Fails {
 				fmt.Println("   FAIL", f.Sig, f.Msg)
@@ -409,21 +416,23 @@ func main() {
 	}
 	run := evid.New("C01", "model_checking")
 	thorough := run.Thorough()
-	seqLen, seqK := 4, 4
+	// word sets of part 1: {letters, minimal length, maximal length}
+	wordSets := [][3]int{{4, 1, 4}}
 	ev1, ev2 := 3, 2
 	if thorough {
-		seqLen, seqK = 6, 5
+		wordSets = [][3]int{{4, 1, 4}, {3, 5, 6}}
 		ev1, ev2 = 4, 2
 	}
-	if v := os.Getenv("C01_SEQLEN"); v != "" {
-		fmt.Sscan(v, &seqLen)
+	var wsDesc []string
+	for _, ws := range wordSets {
+		wsDesc = append(wsDesc, fmt.Sprintf("length %d..%d over the first %d letters", ws[1], ws[2], ws[0]))
 	}
 	run.Rule(fmt.Sprintf("REAL Server/ServerStream/Client on memnet under virtual time; the harness serialises its operations. Configurations (%d): direction {stream-to-reader: ServerStream.WritePacketRTP; relay: Client.WritePacketRTP -> record session -> sysx relay handler -> ServerStream} x transport of reader/publisher {udp, tcp, http-tunnel, ws-tunnel} (relay: same transport on both sides, plus udp->tcp and tcp->udp) x shape {1m1f: H264/96; 2m: H264/96 + Opus/97; 1m2f: one media with H264/96 + VP8/97} + {rtsps with SRTP} for tcp and udp. "+
-		"Part 1 (kind seq): per configuration EVERY packet word of length 1..%d over the first %d letters of the alphabet [%s] (plus the last letter, a sequence-number jump of +32768, when all transports are reliable), one always-on reader, words run in batches of one world, a delivery barrier after each word; sequence numbers consecutive from {0, 65534, 65531} per batch (reliable transports: every word restarts at 0 or 65534 = arbitrary jump). "+
+		"Part 1 (kind seq): per configuration EVERY packet word of %s of the alphabet [%s] (each letter set extended by the last letter, a sequence-number jump of +32768, when all transports are reliable), one always-on reader, words run in batches of one world, a delivery barrier after each word; sequence numbers consecutive from {0, 65534, 65531} per batch (reliable transports: every word restarts at 0 or 65534 = arbitrary jump). "+
 		"Part 2 (kind place): per configuration the fixed packet sequence [%s] with ALL placements (7 slots, non-decreasing) of the event scripts of one reader {%s} and of two readers {%s} x {%s} (reader 1 on the configuration's second transport), a fresh world per case, start sequence number alternating 0/65534. "+
 		"Before PAUSE and TEARDOWN the harness runs a delivery barrier for that reader (sentinel packet per (media, format), wait for its arrival); abrupt close is issued without one. A final barrier ends every case. "+
 		"state = (configuration, vector of reader states none/playing/paused/gone); transition = one write, barrier or reader event executed on the implementation; trace = one case. non-trivial case = at least one packet was received by a reader and at least one oracle clause beyond 'nothing received' applied; distinct = distinct (configuration, step list).",
-		len(configs()), seqLen, seqK, lettersString(seqAlphabet), lettersString(placeSeq), strings.Join(scripts(ev1), ","), strings.Join(scripts(ev2), ","), strings.Join(scripts(ev2), ",")))
+		len(configs()), strings.Join(wsDesc, " and of "), lettersString(seqAlphabet), lettersString(placeSeq), strings.Join(scripts(ev1), ","), strings.Join(scripts(ev2), ","), strings.Join(scripts(ev2), ",")))
 	run.Assume("oracle per reader and (media, format): every packet handed to OnPacketRTP matches a written packet (unique payload tag) of that same media and format in payload bytes, marker, timestamp, sequence number, payload type, no padding/extension/CSRC added; at most once; in writing order per (media, format). SSRC is excluded from the comparison with the written packet: ServerStream/Client.WritePacketRTP overwrite pkt.SSRC with their local SSRC (server_stream_format.go:99, client_format.go:268); instead the SSRC of every received packet must equal the ssrc= of that reader's SETUP response (announced only for medias with one format: server_session.go:1032)")
 	run.Assume("completeness is demanded on TCP-based transports only, for packets whose WritePacketRTP returned nil, written after the reader's Play() returned and before the harness issued Pause()/Close(), provided no OnStreamWriteError fired for that session. Weaker reading taken: before PAUSE/TEARDOWN the harness first waits (sentinel barrier) until the reader has received what was written; a PAUSE that overtakes packets still queued in the session's write queue discards them by design (ringbuffer.Close) - reported separately, not demanded here. Over UDP only 'in-order subsequence' is demanded; completeness on the lossless memnet is reported (udp_missing)")
 	run.Assume("TLS: with TCP media the TLS record layer is replaced by the identity through Server.TLSListen / Client.DialTLSContext so that the tap can read interleaved frames (SRTP stays on: it depends on TLSConfig/rtsps only); with UDP media the control connection is really TLS over memnet. Tunnels are not combined with TLS. memnet UDP is lossless and FIFO per socket; the client's UDP reorderer parks packets behind a gap (packets written while paused), the barrier then writes a burst of 66 sentinels to flush it")
@@ -461,7 +470,7 @@ func main() {
 	}
 
 	only := os.Getenv("C01_ONLY")   // debugging: substring filter on the configuration name
-	parts := os.Getenv("C01_PARTS") // debugging: subset of seq,place1,place2,srtpwrap
+	parts := os.Getenv("C01_PARTS") // debugging: subset of seq,place1,place2,srtpwrap,undrained
 	part := func(p string) bool { return parts == "" || strings.Contains(parts, p) }
 	var cfgs []Cfg
 	for _, c := range configs() {
@@ -472,37 +481,55 @@ func main() {
 	if only != "" || parts != "" {
 		run.Cap("debug filter C01_ONLY/C01_PARTS in effect")
 	}
+	// The enumeration is cut into work packages that run in a fixed order; a package is started only while the
+	// time budget lasts (the machine is shared). What was not run is recorded as a cap (exhaustive=false); the
+	// budget never influences a verdict.
+	type pkg struct {
+		name   string
+		groups [][]int // worker jobs: indices into cases
+		units  float64 // estimated cost: placement cases + words/4
+		must   bool
+	}
 	var cases []Case
-	// part 1: packet words
-	batch := 120
-	nSeq := 0
-	if part("seq") {
-		for _, cfg := range cfgs {
-			k, jump := seqK, false
-			if allReliable(cfg) {
-				k, jump = seqK+1, true
+	var pkgs []*pkg
+	counts := map[string]int{}
+	group := func(p *pkg, lo, hi, per int) {
+		for i := lo; i < hi; i += per {
+			var idx []int
+			for k := i; k < min(i+per, hi); k++ {
+				idx = append(idx, k)
 			}
-			total := seqCount(k, seqLen)
-			nSeq += total
-			for from, b := 0, 0; from < total; from, b = from+batch, b+1 {
+			p.groups = append(p.groups, idx)
+		}
+	}
+	batchNo := 0
+	addWords := func(p *pkg, sel func(Cfg) bool, ws [3]int) {
+		if !part("seq") {
+			return
+		}
+		for _, cfg := range cfgs {
+			if !sel(cfg) {
+				continue
+			}
+			k, jump := ws[0], false
+			if allReliable(cfg) {
+				k, jump = k+1, true
+			}
+			total := seqCount(k, ws[1], ws[2])
+			counts["packet_words"] += total
+			p.units += float64(total) / 4
+			lo := len(cases)
+			for from := 0; from < total; from += 120 {
 				c := cfg
 				c.Rd2 = ""
-				cases = append(cases, Case{Cfg: c, Kind: "seq", Gen: &Gen{K: k, MaxLen: seqLen, From: from, To: min(from+batch, total), Batch: b, Jump: jump}})
+				cases = append(cases, Case{Cfg: c, Kind: "seq", Gen: &Gen{K: k, MinLen: ws[1], MaxLen: ws[2], From: from, To: min(from+120, total), Batch: batchNo, Jump: jump}})
+				batchNo++
 			}
+			counts["word_batches"] += len(cases) - lo
+			group(p, lo, len(cases), 2)
 		}
 	}
-	nBatch := len(cases)
-	// part 2: placements of reader events
-	p1 := readerPlacements(ev1)
-	p2 := readerPlacements(ev2)
-	n := 0
-	start := func(cfg Cfg) uint16 {
-		n++
-		if cfg.Secure {
-			return 0 // see part 3
-		}
-		return []uint16{0, 65534}[n%2]
-	}
+	nPlace := 0
 	mk := func(cfg Cfg, rs ...placed) Case {
 		g := &Gen{}
 		for _, r := range rs {
@@ -512,54 +539,59 @@ func main() {
 		if len(rs) < 2 {
 			cfg.Rd2 = ""
 		}
-		return Case{Cfg: cfg, Kind: "place", StartSeq: start(cfg), Gen: g}
+		nPlace++
+		start := []uint16{0, 65534}[nPlace%2]
+		if cfg.Secure {
+			start = 0 // a reader joining at the wrap under SRTP: see the srtp-wrap package
+		}
+		return Case{Cfg: cfg, Kind: "place", StartSeq: start, Gen: g}
 	}
-	n1, n2 := 0, 0
-	if part("place1") {
+	addPlace1 := func(p *pkg, sel func(Cfg) bool, minEv, maxEv int) {
+		if !part("place1") {
+			return
+		}
 		for _, cfg := range cfgs {
-			for _, a := range p1 {
-				cases = append(cases, mk(cfg, a))
-				n1++
+			if !sel(cfg) {
+				continue
 			}
-		}
-	}
-	// two readers: quick = the two TCP configurations of shape 2m (reader 1 on UDP); thorough = every
-	// direction/transport/TLS combination of shape 2m, then plain tcp and udp of shape 1m2f
-	var place2Cfg [][2]int
-	if part("place2") {
-		var sel []Cfg
-		for _, cfg := range cfgs {
-			if cfg.Shape == "2m" && !cfg.Secure && cfg.Rd == tTCP && (cfg.Dir == dirStream || cfg.Pub == tTCP) {
-				sel = append(sel, cfg)
-			}
-		}
-		if thorough {
-			for _, cfg := range cfgs {
-				if cfg.Shape == "2m" && !(!cfg.Secure && cfg.Rd == tTCP && (cfg.Dir == dirStream || cfg.Pub == tTCP)) {
-					sel = append(sel, cfg)
-				}
-			}
-			for _, cfg := range cfgs {
-				if cfg.Shape == "1m2f" && !cfg.Secure && (cfg.Rd == tTCP || cfg.Rd == tUDP) && (cfg.Dir == dirStream || cfg.Pub == cfg.Rd) {
-					sel = append(sel, cfg)
-				}
-			}
-		}
-		for _, cfg := range sel {
 			lo := len(cases)
-			for _, a := range p2 {
-				for _, b := range p2 {
-					cases = append(cases, mk(cfg, a, b))
-					n2++
+			for _, a := range readerPlacements(maxEv) {
+				if len(a.script) >= minEv {
+					cases = append(cases, mk(cfg, a))
 				}
 			}
-			place2Cfg = append(place2Cfg, [2]int{lo, len(cases)})
+			counts["placement_cases_one_reader"] += len(cases) - lo
+			p.units += float64(len(cases) - lo)
+			group(p, lo, len(cases), 80)
 		}
 	}
-	// part 3: SRTP and the sequence-number wrap: a reader joins between the last packet before the wrap and the
-	// first one after it (one case per TLS configuration; the placement part runs TLS from sequence number 0)
-	n3 := 0
+	addPlace2 := func(name string, cfg Cfg) {
+		if !part("place2") {
+			return
+		}
+		p := &pkg{name: name}
+		lo := len(cases)
+		p2 := readerPlacements(ev2)
+		for _, a := range p2 {
+			for _, b := range p2 {
+				cases = append(cases, mk(cfg, a, b))
+			}
+		}
+		counts["placement_cases_two_readers"] += len(cases) - lo
+		p.units = float64(len(cases) - lo)
+		group(p, lo, len(cases), 80)
+		pkgs = append(pkgs, p)
+	}
+	is2m := func(c Cfg) bool { return c.Shape == "2m" }
+	not2m := func(c Cfg) bool { return c.Shape != "2m" }
+	all := func(Cfg) bool { return true }
+
+	// package 1 (always run): SRTP at the wrap, undrained leaves, the words over 3 letters, one-reader placements
+	// of up to 3 events on shape 2m
+	core := &pkg{name: "core", must: true}
 	if part("srtpwrap") {
+		// SRTP and the sequence-number wrap: a reader joins between the last packet before the wrap and the first
+		// one after it (one case per TLS configuration; all other placement cases run TLS from sequence number 0)
 		for _, cfg := range cfgs {
 			if cfg.Secure {
 				slot := 4
@@ -569,33 +601,74 @@ func main() {
 				c := cfg
 				c.Rd2 = ""
 				cases = append(cases, Case{Cfg: c, Kind: "place", StartSeq: 65534, Gen: &Gen{Scripts: []string{"j"}, Pos: [][]int{{slot}}}})
-				n3++
+				counts["srtp_wrap_cases"]++
+				core.groups = append(core.groups, []int{len(cases) - 1})
 			}
 		}
 	}
-	// part 4 (report only): PAUSE / TEARDOWN issued right after the six packets, without the delivery barrier
-	n4 := 0
 	if part("undrained") {
+		// report only: PAUSE / TEARDOWN issued right after the six packets, without the delivery barrier
 		for _, cfg := range cfgs {
 			if reliable(cfg.Rd) && (cfg.Dir == dirStream || reliable(cfg.Pub)) {
 				c := cfg
 				c.Rd2 = ""
+				lo := len(cases)
 				for _, sc := range []string{"jPr", "jT"} {
 					pos := [][]int{[]int{0, 6, 6}[:len(sc)]}
 					cases = append(cases, Case{Cfg: c, Kind: "place", StartSeq: 0, Gen: &Gen{Scripts: []string{sc}, Pos: pos}})
-					n4++
+					counts["undrained_leave_cases"]++
 				}
+				group(core, lo, len(cases), 2)
 			}
 		}
 	}
-	n3 += n4 // run with the single-case jobs
-	run.Set("undrained_leave_cases", n4)
+	if thorough {
+		addWords(core, all, [3]int{4, 1, 4})
+		addPlace1(core, all, 1, 3)
+		pkgs = append(pkgs, core)
+		p := &pkg{name: "one reader, scripts of 4 events"}
+		addPlace1(p, all, 4, 4)
+		pkgs = append(pkgs, p)
+		p = &pkg{name: "words of length 5..6 over 3 letters"}
+		addWords(p, all, [3]int{3, 5, 6})
+		pkgs = append(pkgs, p)
+	} else {
+		addWords(core, all, [3]int{3, 1, 4})
+		addPlace1(core, is2m, 1, 3)
+		pkgs = append(pkgs, core)
+		p := &pkg{name: "one reader, shapes 1m1f and 1m2f"}
+		addPlace1(p, not2m, 1, 3)
+		pkgs = append(pkgs, p)
+		p = &pkg{name: "words of length 1..4 over 4 letters"}
+		addWords(p, all, [3]int{4, 1, 4})
+		pkgs = append(pkgs, p)
+	}
+	// two readers: first the two TCP configurations of shape 2m (reader 1 on UDP); thorough goes on with every
+	// other direction/transport/TLS combination of shape 2m, then plain tcp and udp of shape 1m2f
+	tcp2m := func(cfg Cfg) bool {
+		return cfg.Shape == "2m" && !cfg.Secure && cfg.Rd == tTCP && (cfg.Dir == dirStream || cfg.Pub == tTCP)
+	}
+	for _, cfg := range cfgs {
+		if tcp2m(cfg) {
+			addPlace2("two readers, "+cfg.String(), cfg)
+		}
+	}
+	if thorough {
+		for _, cfg := range cfgs {
+			if cfg.Shape == "2m" && !tcp2m(cfg) {
+				addPlace2("two readers, "+cfg.String(), cfg)
+			}
+		}
+		for _, cfg := range cfgs {
+			if cfg.Shape == "1m2f" && !cfg.Secure && (cfg.Rd == tTCP || cfg.Rd == tUDP) && (cfg.Dir == dirStream || cfg.Pub == cfg.Rd) {
+				addPlace2("two readers, "+cfg.String(), cfg)
+			}
+		}
+	}
 	run.Set("configurations", len(cfgs))
-	run.Set("packet_words", nSeq)
-	run.Set("word_batches", nBatch)
-	run.Set("placement_cases_one_reader", n1)
-	run.Set("placement_cases_two_readers", n2)
-	run.Set("srtp_wrap_cases", n3-n4)
+	for k, v := range counts {
+		run.Set(k+"_enumerated", v)
+	}
 
 	agg := map[string]int64{}
 	perCfg := map[string]int64{}
@@ -743,59 +816,39 @@ func main() {
 		}
 	}
 
-	// phase 1: the SRTP cases (each may wait for the hang limit: 1 per job, first), word batches (heavy: 2 per
-	// job) and one-reader placements (light: 80 per job), interleaved so that the tail is short
-	var ph1 [][]int
-	for i := 0; i < nBatch; i += 2 {
-		var idx []int
-		for k := i; k < min(i+2, nBatch); k++ {
-			idx = append(idx, k)
-		}
-		ph1 = append(ph1, idx)
-	}
-	for i := nBatch; i < nBatch+n1; i += 80 {
-		var idx []int
-		for k := i; k < min(i+80, nBatch+n1); k++ {
-			idx = append(idx, k)
-		}
-		ph1 = append(ph1, idx)
-	}
-	sort.SliceStable(ph1, func(a, b int) bool { return a%11 < b%11 })
-	for i := len(cases) - n3; i < len(cases); i++ {
-		ph1 = append([][]int{{i}}, ph1...)
-	}
-	t1 := time.Now()
-	runPhase(ph1)
-	// phase 2: two-reader placements, one configuration after the other while the time budget lasts (the
-	// budget only decides how much is enumerated; it is recorded as a cap, never as a verdict)
-	budget := 90 * time.Second
+	budget := 75 * time.Second
 	if thorough {
-		budget = 780 * time.Second
+		budget = 760 * time.Second
 	}
-	units := float64(n1) + float64(nSeq)/4 + 1
-	perCase := time.Since(t1).Seconds() / units
-	done2 := 0
-	for ci := 0; ci < len(place2Cfg) && !stopped; ci++ {
-		lo, hi := place2Cfg[ci][0], place2Cfg[ci][1]
-		est := time.Duration(float64(hi-lo) * perCase * float64(time.Second))
-		if v := os.Getenv("C01_NOBUDGET"); v == "" && run.Elapsed()+est > budget {
-			run.Cap(fmt.Sprintf("time budget: two-reader placements of %d of %d configurations not run (elapsed %.0fs, next configuration estimated at %.0fs)", len(place2Cfg)-ci, len(place2Cfg), run.Elapsed().Seconds(), est.Seconds()))
-			break
+	perUnit := 0.0
+	var ran, skipped []string
+	for _, p := range pkgs {
+		if stopped || len(p.groups) == 0 {
+			continue
 		}
-		var ph [][]int
-		for i := lo; i < hi; i += 80 {
-			var idx []int
-			for k := i; k < min(i+80, hi); k++ {
-				idx = append(idx, k)
+		est := time.Duration(p.units * perUnit * float64(time.Second))
+		if !p.must && os.Getenv("C01_NOBUDGET") == "" && run.Elapsed()+est > budget {
+			skipped = append(skipped, p.name)
+			continue
+		}
+		// heavy and light jobs interleaved so that the tail is short; single-case jobs (they may wait for the hang
+		// limit) stay first
+		sort.SliceStable(p.groups, func(a, b int) bool {
+			la, lb := len(p.groups[a]) == 1, len(p.groups[b]) == 1
+			if la != lb {
+				return la
 			}
-			ph = append(ph, idx)
-		}
-		t2 := time.Now()
-		runPhase(ph)
-		perCase = time.Since(t2).Seconds() / float64(hi-lo)
-		done2 += hi - lo
+			return a%11 < b%11
+		})
+		t0 := time.Now()
+		runPhase(p.groups)
+		perUnit = time.Since(t0).Seconds() / (p.units + 1)
+		ran = append(ran, fmt.Sprintf("%s (%.0fs)", p.name, time.Since(t0).Seconds()))
 	}
-	run.Set("placement_cases_two_readers_run", done2)
+	run.Set("packages_run", ran)
+	if len(skipped) > 0 {
+		run.Cap(fmt.Sprintf("time budget of %v: packages not run: %s", budget, strings.Join(skipped, "; ")))
+	}
 	for k, v := range agg {
 		run.Set(k, v)
 	}
